@@ -150,6 +150,7 @@ def run(prog, tier, extra=None):
     R2 = res.rule("C11.pre-handshake", "peer key / challenge / peer lookups are not unwrapped without a dominating check", floor=0)
     R3 = res.rule("C11.fallible-unwrapped", "results of workspace functions that can return Err are not unwrapped in handlers", floor=0)
     R4 = res.rule("C11.decoders", "no decoder that can panic on input is reachable from the handlers", floor=15)
+    R6 = res.rule("C11.sized-alloc", "capacities requested in handler-reachable bodies are constants or lengths of existing collections", floor=0)
     R5 = res.rule("C11.peer-indexing", "indexing into fields of peer-decoded structures is covered by a dominating length fact", floor=60)
 
     _r2_cov = {}
@@ -382,6 +383,35 @@ def run(prog, tier, extra=None):
                             "%s indexes %s (`%s`) without a dominating length check: a peer-chosen shape of that vector panics the handler"
                             % (p.replace(CORE, "")[-70:], short, o["desc"][:70]), o["loc"]))
     res.extra["peer_indexing_exceptions_used"] = sorted("%s|%s" % (a.replace(CORE, ""), b) for a, b in used_exc)
+
+    # ---- R6: a capacity computed from peer-influenced numbers (`with_capacity((latest - claimed_id) as usize)`) aborts the process
+    # on "capacity overflow" / allocation failure, and the arithmetic feeding it is itself unchecked. In the handlers' call graph a
+    # requested capacity must be a constant or linear in the lengths of collections that already exist.
+    from ..linear import Linearizer as _Lz
+    ALLOC_ARG = {"std::vec::Vec::with_capacity": 0, "std::vec::Vec::reserve": 1, "std::vec::Vec::reserve_exact": 1, "std::vec::from_elem": 1,
+                 "std::vec::Vec::resize": 1, "std::collections::VecDeque::with_capacity": 0, "std::string::String::with_capacity": 0,
+                 "std::collections::HashMap::with_capacity": 0, "ahash::AHashMap::with_capacity": 0, "std::collections::HashSet::with_capacity": 0}
+    for p in sorted(live):
+        b = prog.body(p)
+        if b is None or b.is_promoted or "/test/" in b.file or "::tests::" in p:
+            continue
+        chb = lzb = None
+        for bb, t in b.calls():
+            n = call_name(t) or ""
+            if n not in ALLOC_ARG or ALLOC_ARG[n] >= len(t["args"]):
+                continue
+            chb = chb or c10.StableChaser(b)
+            lzb = lzb or _Lz(b, chb, prog)
+            res.instance(R6)
+            e = chb.origin(t["args"][ALLOC_ARG[n]])
+            v = lzb.lin(e)
+            ok = v is not None and all(k[0] == "len" and c > 0 for k, c in v.t.items())
+            if ok:
+                res.sample({"rule": R6, "site": b.loc(bb), "capacity": show(e)[:60], "verdict": "constant / length of an existing collection"})
+            else:
+                res.add(Finding(R6, "C11.sized-alloc|%s|%s" % (p, n.rsplit("::", 1)[-1]),
+                                "%s requests a capacity of `%s`, which is not a constant or the length of an existing collection: a peer-influenced value "
+                                "(or an underflowing difference) aborts the handler with 'capacity overflow'" % (p.replace(CORE, "")[-60:], show(e)[:60]), b.loc(bb)))
 
     # a handler that waits for a lock in an inverted order never returns: lock-order findings inside handler-reachable bodies
     from ._include import include
